@@ -198,6 +198,24 @@ fn member_id_of(f: u32, pos: u32) -> LuaMemberId {
     LuaMemberId::new(LuaSyntaxId::new(LuaSyntaxKind::TableFieldAssign.into(), TextRange::new(TextSize::from(pos), TextSize::from(pos + 1))), FileId { id: f })
 }
 
+const NMOWNERS: u64 = 7;
+/// owners 0..3: types T0..T3; owners 4..6: a table literal (element) living in file 1, 2, 3
+fn member_owner_of(t: u64) -> LuaMemberOwner {
+    if t < NOWNERS {
+        LuaMemberOwner::Type(LuaTypeDeclId::global(&format!("T{t}")))
+    } else {
+        LuaMemberOwner::Element(emmylua_code_analysis::InFiled::new(FileId { id: (t - NOWNERS + 1) as u32 }, TextRange::new(TextSize::from(0), TextSize::from(1))))
+    }
+}
+
+fn member_owner_index(o: &LuaMemberOwner) -> Option<u64> {
+    match o {
+        LuaMemberOwner::Type(t) => t.get_name()[1..].parse::<u64>().ok(),
+        LuaMemberOwner::Element(e) => Some(NOWNERS + e.file_id.id as u64 - 1),
+        _ => None,
+    }
+}
+
 fn member_apply(idx: &mut LuaMemberIndex, f: u32, facts: &Value) {
     for fact in facts.as_array().cloned().unwrap_or_default() {
         let t = fact[0].as_u64().unwrap_or(0);
@@ -205,14 +223,14 @@ fn member_apply(idx: &mut LuaMemberIndex, f: u32, facts: &Value) {
         let pos = fact[2].as_u64().unwrap_or(0) as u32;
         let id = member_id_of(f, pos);
         let member = LuaMember::new(id, LuaMemberKey::Name(format!("k{k}").into()), LuaMemberFeature::FileFieldDecl, None);
-        idx.add_member(LuaMemberOwner::Type(LuaTypeDeclId::global(&format!("T{t}"))), member);
+        idx.add_member(member_owner_of(t), member);
     }
 }
 
 fn member_obs(idx: &LuaMemberIndex) -> Value {
     let mut owners = Vec::new();
-    for t in 0..NOWNERS {
-        let owner = LuaMemberOwner::Type(LuaTypeDeclId::global(&format!("T{t}")));
+    for t in 0..NMOWNERS {
+        let owner = member_owner_of(t);
         let mut ms: Vec<(String, u32, u32)> = idx
             .get_members(&owner)
             .map(|v| v.iter().map(|m| (m.get_key().to_path(), m.get_file_id().id, u32::from(m.get_id().get_position()))).collect())
@@ -224,7 +242,7 @@ fn member_obs(idx: &LuaMemberIndex) -> Value {
     for f in 1..=NFILES as u32 {
         for pos in 0..6u32 {
             let id = member_id_of(f, pos);
-            let o = idx.get_current_owner(&id).and_then(|o| o.get_type_id().map(|t| t.get_name()[1..].parse::<u64>().unwrap_or(99)));
+            let o = idx.get_current_owner(&id).and_then(member_owner_index);
             cur.push(json!([f, pos, idx.get_member(&id).is_some(), o]));
         }
     }
@@ -277,7 +295,7 @@ fn gen_facts(rng: &mut Rng, index: &str) -> Value {
             "property" => v.push(json!([rng.below(NOWNERS as usize), rng.below(5), rng.below(4)])),
             "global" => v.push(json!([rng.below(NOWNERS as usize), rng.below(6)])),
             "diagnostic" => v.push(json!([rng.below(2), rng.below(CODES.len())])),
-            "member" => v.push(json!([rng.below(NOWNERS as usize), rng.below(3), rng.below(6)])),
+            "member" => v.push(json!([rng.below(NMOWNERS as usize), rng.below(3), rng.below(6)])),
             "reference" => v.push(json!([rng.below(2), rng.below(NOWNERS as usize), rng.below(5)])),
             _ => match rng.below(6) {
                 0 => v.push(json!([0, rng.below(2)])),
@@ -380,7 +398,11 @@ fn snippet(rng: &mut Rng, idx: usize, nfiles: usize) -> String {
     let k = rng.below(3);
     let j = rng.below(3);
     let fty = ["integer", "string", "boolean"][idx % 3];
-    let body = match rng.below(30) {
+    let body = match rng.below(34) {
+        // a module table returned by another file, extended / read through the require result
+        30 | 31 => format!("require(\"m{}\").extra{idx} = {idx}\n", rng.below(nfiles)),
+        32 => format!("local ex{idx}_{j} = require(\"m{}\").extra{}\n", rng.below(nfiles), rng.below(nfiles)),
+        33 => format!("local ow{idx}_{j} = require(\"m{}\").own{}\n", rng.below(nfiles), rng.below(nfiles)),
         0 | 1 => format!("---Doc of C{k} written in file {idx}\n---@class C{k}\n---@field a{idx} number\nC{k} = C{k} or {{}}\n"),
         2 | 3 => format!("---@class C{k}\n---@field b{idx} string\n"),
         4 => format!("---@class D{idx}: C{k}\nlocal d{idx} = {{}}\nd{idx}.x = 1\n"),
@@ -415,7 +437,7 @@ fn gen_text(rng: &mut Rng, idx: usize, nfiles: usize) -> String {
     if rng.chance(1, 10) {
         s.push_str("---@diagnostic disable: undefined-global\n");
     }
-    s.push_str(&format!("local M{idx} = {{}}\n\n"));
+    s.push_str(&format!("local M{idx} = {{ own{idx} = {idx} }}\n\n"));
     let n = rng.range(1, 5);
     for _ in 0..n {
         s.push_str(&snippet(rng, idx, nfiles));
@@ -570,6 +592,15 @@ fn dump(a: &EmmyLuaAnalysis, live: &[(String, FileId)]) -> BTreeSet<String> {
         if let Some(m) = db.get_module_index().get_module(*id) {
             let export = m.export_type.as_ref().map(|t| humanize_type(db, t, RenderLevel::Detailed));
             out.insert(format!("mod|{path}|{}|ws={}|hidden={}|meta={}|export={:?}|sem={:?}", m.full_module_name, m.workspace_id.id, m.visible.is_hidden(), m.is_meta, export, m.semantic_id.as_ref().map(|s| decl_str(db, s))));
+            // the members of the table the module returns (its own fields and the ones other files added through require)
+            if let Some(LuaType::TableConst(inf)) = &m.export_type {
+                if let Some(members) = db.get_member_index().get_members(&LuaMemberOwner::Element(inf.clone())) {
+                    for mm in members {
+                        let ty = db.get_type_index().get_type_cache(&mm.get_id().into()).map(|c| humanize_type(db, c.as_type(), RenderLevel::Simple));
+                        out.insert(format!("member|export:{path}|{}|{}|type={ty:?}", key_str(db, mm.get_key()), loc(db, mm.get_file_id(), rng_str(mm.get_range()))));
+                    }
+                }
+            }
         } else {
             out.insert(format!("mod|{path}|<none>"));
         }
@@ -979,7 +1010,9 @@ fn run_case(case: &Value, out: &mut Vec<Value>, stats: &mut BTreeMap<String, usi
     let remap_lib = mode & 1 != 0;
     let with_lib = case["lib"].as_bool().unwrap_or(false) && !remap_lib;
     let single = case["single"].as_bool().unwrap_or(false);
-    let mut cfg = case["cfg"].as_u64().unwrap_or(0) as usize;
+    // bit 4: no moduleMap at all (every configuration replaced by the default one): no two files share a module path
+    let no_map = mode & 4 != 0;
+    let mut cfg = if no_map { 0 } else { case["cfg"].as_u64().unwrap_or(0) as usize };
     let mut files: Vec<WFile> = case["files"]
         .as_array()
         .map(|a| a.iter().map(|f| WFile { path: remap(f["path"].as_str().unwrap_or(""), remap_lib), text: f["text"].as_str().unwrap_or("").into(), alt: f["alt"].as_str().unwrap_or("").into() }).collect())
@@ -1044,7 +1077,15 @@ fn run_case(case: &Value, out: &mut Vec<Value>, stats: &mut BTreeMap<String, usi
         if tags.contains("supers-order") {
             variants.push((2, "supers-order"));
         }
-        for (m, name) in variants {
+        if tags.contains("duplicate-module-path") {
+            variants.push((4, "duplicate-module-path"));
+        }
+        // single mechanisms first, then (when several are in play) all of them neutralised together
+        let mut trials: Vec<(u8, Vec<&str>)> = variants.iter().map(|(m, n)| (*m, vec![*n])).collect();
+        if variants.len() >= 2 {
+            trials.push((variants.iter().fold(0u8, |acc, (m, _)| acc | m), variants.iter().map(|(_, n)| *n).collect()));
+        }
+        for (m, names) in trials {
             let raw: Vec<String> = tags.iter().filter(|t| !is_mechanism(t)).cloned().collect();
             if raw.is_empty() {
                 break;
@@ -1063,7 +1104,9 @@ fn run_case(case: &Value, out: &mut Vec<Value>, stats: &mut BTreeMap<String, usi
                 for t in gone {
                     tags.remove(&t);
                 }
-                tags.insert(name.to_string());
+                for name in names {
+                    tags.insert(name.to_string());
+                }
             }
         }
         tags
@@ -1228,7 +1271,7 @@ fn run_case(case: &Value, out: &mut Vec<Value>, stats: &mut BTreeMap<String, usi
                 }
             }
             "config" => {
-                cfg = i % NCONFIGS;
+                cfg = if no_map { 0 } else { i % NCONFIGS };
                 a.update_config(Arc::new(config_of(cfg)));
                 consistent = false;
             }
@@ -1312,6 +1355,13 @@ fn fixed_cases() -> Vec<Value> {
             {"path": "/w/m1.lua", "text": "---@class Widget: Base\n---@field extra string\n\nreturn 1\n", "alt": "return 2\n"},
             {"path": "/w/m2.lua", "text": "---@type Widget\nlocal wv = nil\nlocal bid = wv and wv.base_id\nreturn bid\n", "alt": "return 3\n"}],
         "steps": [["remove", 1], ["reindex"]]}));
+    // a module table returned by m0, extended by m1 through require, read by m2; m0 is re-submitted / edited and restored
+    v.push(json!({"lib": false, "single": false, "cfg": 0,
+        "files": [
+            {"path": "/w/m0.lua", "text": "local M = { hello = 1 }\nreturn M\n", "alt": "local M = { hello = 1, temporary = 2 }\nreturn M\n"},
+            {"path": "/w/m1.lua", "text": "local m = require(\"m0\")\nm.extra = 1\nrequire(\"m0\").extra2 = 2\nreturn m\n", "alt": "return 2\n"},
+            {"path": "/w/m2.lua", "text": "local a = require(\"m0\").extra\nlocal b = require(\"m0\").hello\nlocal c = require(\"m0\").extra2\nreturn a\n", "alt": "return 3\n"}],
+        "steps": [["resubmit", 0], ["reindex"], ["editrestore", 0]]}));
     // the module map is configured, changed and removed again
     v.push(json!({"lib": false, "single": false, "cfg": 1,
         "files": [
@@ -1335,7 +1385,8 @@ fn main() {
                     "global" => vec![json!(["add", 1, [[0, 1], [1, 2]]]), json!(["add", 2, [[0, 3]]]), json!(["remove", 1]), json!(["remove", 2])],
                     "diagnostic" => vec![json!(["add", 1, [[0, 0], [1, 1]]]), json!(["remove", 1])],
                     "reference" => vec![json!(["add", 1, [[0, 0, 1], [1, 0, 2]]]), json!(["add", 2, [[0, 0, 1], [0, 0, 3]]]), json!(["remove", 1]), json!(["remove", 2])],
-                    "member" => vec![json!(["add", 1, [[0, 0, 1], [0, 0, 2]]]), json!(["add", 2, [[0, 0, 3]]]), json!(["remove", 1]), json!(["clear"])],
+                    "member" => vec![json!(["add", 1, [[4, 0, 1], [0, 0, 2]]]), json!(["add", 2, [[4, 1, 3], [4, 0, 4]]]), json!(["remove", 1]), json!(["add", 1, [[4, 0, 1]]]), json!(["remove", 2]),
+                                     json!(["add", 1, [[0, 0, 1], [0, 0, 2]]]), json!(["add", 2, [[0, 0, 3]]]), json!(["remove", 1]), json!(["clear"])],
                     _ => vec![json!(["add", 1, [[2, 0, 1], [3, 0, 1], [0, 1]]]), json!(["add", 2, [[2, 0, 2], [3, 0, 2]]]), json!(["remove", 1]), json!(["remove", 2])],
                 };
                 println!("{}", run_index_case(index, &w));
